@@ -134,7 +134,8 @@ namespace nmtools::index
 
             if ((minus_1_count == 0) && (src_numel != dst_numel)) {
                 return return_t{meta::Nothing};
-            } else if (static_cast<bool>(src_numel % dst_numel)) {
+            } else if ((minus_1_count == 1) && ((dst_numel == 0) || static_cast<bool>(src_numel % dst_numel))) {
+                // NOTE: dst_numel == 0 (zero extent together with -1) can not be inferred, also avoids division by zero
                 return return_t{meta::Nothing};
             }
 
